@@ -257,6 +257,14 @@ def matrix_config(comp, std, emu, opt, dbg, paren):
     return name
 
 
+TOOL_FAILURES = []      # failures of the tools themselves (compiler crashes): reported in the evidence, never as violations
+
+
+def compiler_crashed(log):
+    return ("frontend command failed due to signal" in log or "internal compiler error" in log or "PLEASE submit a full bug report" in log
+            or "PLEASE ATTACH THE FOLLOWING FILES TO THE BUG REPORT" in log)
+
+
 def compile_cpp(name, src_text, config, extra=""):
     """compile a generated TU against /repo/include (current working tree); cached by content hash.
     returns (exe|None, log)"""
@@ -273,7 +281,13 @@ def compile_cpp(name, src_text, config, extra=""):
         f.write(src_text)
     cmd = "%s %s %s -w -I%s -I%s %s -o %s.tmp" % (comp, flags, extra, INCLUDE, CPP, src, exe)
     rc, o, e = sh("timeout 1500 " + cmd, timeout=1600)
+    if rc != 0 and compiler_crashed(o + e):
+        # one retry: compiler crashes under memory pressure are not reproducible
+        rc, o, e = sh("timeout 1500 " + cmd, timeout=1600)
     if rc != 0:
+        if compiler_crashed(o + e):
+            TOOL_FAILURES.append("%s: the compiler itself crashed building %s in configuration %s (internal compiler error, twice); that cell is skipped" % (comp, name, config))
+            return None, "COMPILER-CRASH " + cmd + "\n" + (o + e)[-3000:]
         return None, cmd + "\n" + (o + e)[-8000:]
     os.rename(exe + ".tmp", exe)
     os.remove(src)
@@ -338,7 +352,7 @@ class Report:
     def finish(self):
         ev = {
             "property_id": self.prop, "tier": self.tier, "seed": self.seed, "level": self.level,
-            "coverage": self.cov, "assumptions": self.assumptions,
+            "coverage": self.cov, "assumptions": self.assumptions + (["tool failures in this run: " + "; ".join(sorted(set(TOOL_FAILURES)))] if TOOL_FAILURES else []),
             "wall_s": round(time.time() - self.t0, 2), "violations": len(self.violations),
         }
         os.makedirs(EVID, exist_ok=True)
